@@ -10,6 +10,7 @@ CONSTANTS
   ReqCTs <- ReqCTsAll
   Accepts <- AcceptsFull
   Docs <- DocsFull
+  Slip = "none"
 INIT Init
 NEXT Next
 CHECK_DEADLOCK FALSE
